@@ -44,10 +44,12 @@ func VerifH_C15_hops_roundtrip() {
 
 // c15Server is the native stand-in for crawl HQ: it fails the calls the fault sequence says and records the rest.
 type c15Server struct {
-	mu     sync.Mutex
-	faults []bool
-	calls  int
-	added  [][]gocrawlhq.URL
+	mu      sync.Mutex
+	faults  []bool
+	timeout bool // failing calls get no answer at all (until the client gives up) instead of a 503
+	calls   int
+	added   [][]gocrawlhq.URL
+	deleted [][]gocrawlhq.URL
 }
 
 func (s *c15Server) ServeHTTP(w http.ResponseWriter, r *http.Request) {
@@ -56,7 +58,23 @@ func (s *c15Server) ServeHTTP(w http.ResponseWriter, r *http.Request) {
 	i := s.calls
 	s.calls++
 	if i < len(s.faults) && s.faults[i] {
+		if s.timeout {
+			s.mu.Unlock()
+			select {
+			case <-r.Context().Done():
+			case <-time.After(9 * time.Second):
+			}
+			s.mu.Lock()
+			return
+		}
 		w.WriteHeader(503)
+		return
+	}
+	if r.Method == http.MethodDelete {
+		var p gocrawlhq.DeletePayload
+		_ = json.NewDecoder(r.Body).Decode(&p)
+		s.deleted = append(s.deleted, p.URLs)
+		w.WriteHeader(204)
 		return
 	}
 	var p gocrawlhq.AddPayload
@@ -67,11 +85,22 @@ func (s *c15Server) ServeHTTP(w http.ResponseWriter, r *http.Request) {
 
 // VerifH_C15_producer: every outlink handed to the HQ producer reaches a SUCCESSFUL Add call exactly once with its
 // text, via and hop count intact, whatever the batch fill level and however many Add calls fail first.
-func VerifH_C15_producer() {
+func VerifH_C15_producer() { c15Producer(false) }
+
+// VerifH_C15_producer_timeout: the same when the failing calls are requests that crawl HQ never answers (they end with
+// the client's timeout, or earlier if the caller put a deadline on the request's context): one or two outlinks, one
+// or two unanswered calls.
+func VerifH_C15_producer_timeout() { c15Producer(true) }
+
+func c15Producer(timeouts bool) {
 	_ = stats.Init()
 	batchSize := 1 + verifrt.Choice("batchsize-1", 2)
 	config.VerifSet(&config.Config{WorkersCount: 1, HQBatchSize: batchSize})
 	nFaults := verifrt.Choice("faults", 3)
+	if timeouts && nFaults == 0 {
+		return
+	}
+	verifmodel.HQTimeout = timeouts
 	faults := make([]bool, nFaults)
 	for i := range faults {
 		faults[i] = true // the first nFaults calls fail, then HQ recovers
@@ -81,10 +110,13 @@ func VerifH_C15_producer() {
 	if verifrt.Symbolic() {
 		verifmodel.HQFaults = faults
 	} else {
-		srv = &c15Server{faults: faults}
+		srv = &c15Server{faults: faults, timeout: timeouts}
 		ts := httptest.NewServer(srv)
 		defer ts.Close()
 		client.HTTPClient = ts.Client()
+		if timeouts {
+			client.HTTPClient.Timeout = 6 * time.Second // the crawler's HQ client is built with a timeout of a few seconds
+		}
 		client.URLsEndpoint, _ = url.Parse(ts.URL + "/urls")
 	}
 	ctx, cancel := context.WithCancel(context.Background())
@@ -93,11 +125,16 @@ func VerifH_C15_producer() {
 	globalHQ.wg.Add(1)
 	go producer()
 	n := 1 + verifrt.Choice("items-1", 2)
-	early := verifrt.Choice("items-before-first-timer", n+1) // how many outlinks arrive before the flush timer fires first
+	early := n
+	if !timeouts {
+		early = verifrt.Choice("items-before-first-timer", n+1) // how many outlinks arrive before the flush timer fires first
+	}
 	verifrt.Tag("[items=" + string(rune('0'+n)) + " before-timer=" + string(rune('0'+early)) + " failing-calls=" + string(rune('0'+nFaults)) + " batch=" + string(rune('0'+batchSize)) + "]")
 	hops := make([]int, n)
 	feed := func(i int) {
-		hops[i] = int(verifrt.IntRange("hops", 0, 2))
+		if !timeouts {
+			hops[i] = int(verifrt.IntRange("hops", 0, 2))
+		}
 		it := models.NewItem("id"+string(rune('0'+i)), &models.URL{Raw: "http://o.example/" + string(rune('a'+i)), Hops: hops[i]}, "http://parent.example/")
 		produce <- it
 	}
@@ -116,8 +153,12 @@ func VerifH_C15_producer() {
 	verifrt.EnvTicks(1)
 	verifrt.Quiesce()
 	if !verifrt.Symbolic() {
-		// native: wait for the 5 s flush timer and the 1 s + 2 s back-off
-		deadline := time.Now().Add(12 * time.Second)
+		// native: wait for the 5 s flush timer and the 1 s + 2 s back-off (and the client's timeout on unanswered calls)
+		wait := 12 * time.Second
+		if timeouts {
+			wait += time.Duration(nFaults) * 7 * time.Second
+		}
+		deadline := time.Now().Add(wait)
 		for time.Now().Before(deadline) {
 			srv.mu.Lock()
 			got := 0
@@ -162,6 +203,112 @@ func VerifH_C15_producer() {
 		// the scenario is part of the label so that each scenario's counterexample gets its own native replay
 		verifrt.Assert(cnt == 1, "C15 every outlink reaches a successful HQ add exactly once despite HQ errors [items="+
 			string(rune('0'+n))+" before-timer="+string(rune('0'+early))+" failing-calls="+string(rune('0'+nFaults))+" batch="+string(rune('0'+batchSize))+"]")
+	}
+	cancel()
+	globalHQ.wg.Wait()
+	verifrt.Cover("stopped")
+}
+
+// VerifH_C15_finisher: every finished seed handed to the HQ finisher is acknowledged by its id in a SUCCESSFUL delete
+// call exactly once, whatever the batch fill level (batch size = workers count) and however many calls fail first
+// (5xx answers or unanswered requests).
+func VerifH_C15_finisher()  { c15Finisher(2) }
+func VerifH_C15_finisher3() { c15Finisher(3) }
+
+func c15Finisher(maxItems int) {
+	_ = stats.Init()
+	batchSize := 1 + verifrt.Choice("batchsize-1", 2)
+	config.VerifSet(&config.Config{WorkersCount: batchSize})
+	nFaults := verifrt.Choice("faults", 3)
+	timeouts := nFaults > 0 && verifrt.Symbolic() && verifrt.Choice("unanswered", 2) == 1
+	verifmodel.HQTimeout = timeouts
+	faults := make([]bool, nFaults)
+	for i := range faults {
+		faults[i] = true
+	}
+	client := &gocrawlhq.Client{Key: "k", Secret: "s", Project: "p"}
+	var srv *c15Server
+	if verifrt.Symbolic() {
+		verifmodel.HQFaults = faults
+		verifmodel.HQCalls, verifmodel.HQDeleted = 0, nil
+	} else {
+		srv = &c15Server{faults: faults}
+		ts := httptest.NewServer(srv)
+		defer ts.Close()
+		client.HTTPClient = ts.Client()
+		client.URLsEndpoint, _ = url.Parse(ts.URL + "/urls")
+	}
+	ctx, cancel := context.WithCancel(context.Background())
+	finish := make(chan *models.Item, 3)
+	globalHQ = &hq{ctx: ctx, cancel: cancel, finishCh: finish, client: client}
+	globalHQ.wg.Add(1)
+	go finisher()
+	n := 1 + verifrt.Choice("items-1", maxItems)
+	early := verifrt.Choice("items-before-first-timer", n+1)
+	tag := "[items=" + string(rune('0'+n)) + " before-timer=" + string(rune('0'+early)) + " failing-calls=" + string(rune('0'+nFaults)) + " batch=" + string(rune('0'+batchSize)) + "]"
+	verifrt.Tag(tag)
+	feed := func(i int) {
+		u := &models.URL{Raw: "http://s.example/" + string(rune('a'+i))}
+		_ = u.Parse()
+		finish <- models.NewItem("id"+string(rune('0'+i)), u, "")
+	}
+	for i := 0; i < early; i++ {
+		feed(i)
+	}
+	verifrt.Quiesce()
+	verifrt.EnvTicks(1)
+	if !verifrt.Symbolic() && early > 0 && early < n {
+		time.Sleep(5500 * time.Millisecond)
+	}
+	for i := early; i < n; i++ {
+		feed(i)
+	}
+	verifrt.Quiesce()
+	verifrt.EnvTicks(1)
+	verifrt.Quiesce()
+	if !verifrt.Symbolic() {
+		deadline := time.Now().Add(13 * time.Second)
+		for time.Now().Before(deadline) {
+			srv.mu.Lock()
+			got := 0
+			for _, b := range srv.deleted {
+				got += len(b)
+			}
+			srv.mu.Unlock()
+			if got >= n {
+				break
+			}
+			time.Sleep(100 * time.Millisecond)
+		}
+	}
+	var deleted [][]gocrawlhq.URL
+	if verifrt.Symbolic() {
+		deleted = verifmodel.HQDeleted
+	} else {
+		srv.mu.Lock()
+		deleted = srv.deleted
+		srv.mu.Unlock()
+	}
+	if nFaults > 0 {
+		verifrt.Cover("hq-failed-first")
+	}
+	if timeouts {
+		verifrt.Cover("hq-unanswered")
+	}
+	if n%batchSize != 0 {
+		verifrt.Cover("timer-flush")
+	}
+	for i := 0; i < n; i++ {
+		cnt := 0
+		for _, b := range deleted {
+			for _, u := range b {
+				if u.ID == "id"+string(rune('0'+i)) {
+					cnt++
+					verifrt.Assert(u.Value == "http://s.example/"+string(rune('a'+i)), "C15 the acknowledgement carries the seed's URL")
+				}
+			}
+		}
+		verifrt.Assert(cnt == 1, "C15 every finished seed is acknowledged to HQ by its id exactly once despite HQ errors "+tag)
 	}
 	cancel()
 	globalHQ.wg.Wait()
